@@ -206,12 +206,23 @@ func widePrograms() []*gen.Node {
 			cond = gen.Infix(cond, op, rhs)
 		}
 	}
-	return []*gen.Node{
+	// else-if branches (each keyword spelling) whose condition is a concatenation that ends within a few columns of the
+	// line width: a sweep of the last operand's length moves the end of the line through every column from 100 to 135
+	var sweeps []*gen.Node
+	for _, kw := range []string{"else if", "elsif", "elseif"} {
+		for l := 0; l <= 35; l++ {
+			c2 := gen.Infix(gen.Ident("req.http.Host"), "~", gen.Concat(gen.Concat(gen.Str("^region-aaaaaaaaaaaaaaaaaaaaaaaaaaaaaaaaaaa-"), true, gen.Ident("req.http.X-Region-Suffix")), true, gen.Str(strings.Repeat("z", l)+"$")))
+			ifs := gen.If(gen.Ident("req.http.A"), gen.N("EsiStatement"))
+			ifs.Set("Another", []*gen.Node{gen.ElseIf(kw, c2, gen.N("EsiStatement"))})
+			sweeps = append(sweeps, gen.VCL(gen.Sub("vcl_recv", ifs)))
+		}
+	}
+	return append([]*gen.Node{
 		gen.VCL(gen.Sub("vcl_recv", gen.Set("req.http.A", "=", cat), gen.N("LogStatement", "Value", cat.Clone()))),
 		gen.VCL(gen.Sub("vcl_recv", gen.If(cond, gen.N("EsiStatement")))),
 		gen.VCL(gen.Sub("vcl_recv", gen.Set("req.http.A", "=", gen.Call("regsuball", gen.Ident("req.http.Some-Long-Header-Name"), gen.Str("^(aaaaaaaaaaaaaaaaaaaa|bbbbbbbbbbbbbbbbbbbbbbbb)"), gen.Concat(gen.Str("cccccccccccccccccccccccc"), false, gen.Ident("req.http.Yet-Another-Header")))))),
 		gen.VCL(gen.Sub("vcl_recv", gen.N("ErrorStatement", "Code", gen.Int(600), "Argument", cat.Clone()), gen.N("SyntheticStatement", "Value", cat.Clone()))),
-	}
+	}, sweeps...)
 }
 
 // specials are comments with a meaning of their own, at leading slots
